@@ -31,8 +31,9 @@ MCNext ==
     \* internal
     \/ \E i \in DOMAIN dg : dg[i].st = "flight" /\ sentAt[i] + Lat = now /\ Arrive(i)
                             /\ last' = [op |-> "arrive"] /\ UNCHANGED <<sentAt, budget, nextId>>
-    \/ \E r \in {"r1", "r2"} : /\ us[r].op # None /\ us[r].op.style # "wait" /\ us[r].rcvq # <<>>
-                               /\ LET i == Head(us[r].rcvq) IN Recv(r, i, Min(dg[i].size, us[r].op.cap), dg[i].from)
+    \/ \E r \in {"r1", "r2"} : \E k \in 1..Len(Ops(r)) :
+                               /\ Ops(r)[k].style # "wait" /\ Ops(r)[k].tk # None
+                               /\ Recv(r, Ops(r)[k].tk.id, Min(Ops(r)[k].tk.size, Ops(r)[k].cap), Ops(r)[k].tk.from)
                                /\ last' = [op |-> "deliver"] /\ UNCHANGED <<sentAt, budget, nextId>>
     \/ \E r \in {"r1", "r2"} : Ready(r) /\ last' = [op |-> "ready"] /\ UNCHANGED <<sentAt, budget, nextId>>
     \/ \E r \in {"r1", "r2"} : AbortRecv(r) /\ last' = [op |-> "aborted"] /\ UNCHANGED <<sentAt, budget, nextId>>
@@ -43,5 +44,9 @@ MCSpec == MCInit /\ [][MCNext]_mvars
 \* nothing sent to an earlier incarnation is ever read from a later one, NAT view
 NeverStale == \A i \in DOMAIN dg : dg[i].st = "queued" => dg[i].tinc = us[dg[i].tgt].inc
 NatView == \A i \in DOMAIN dg : dg[i].from = (IF dg[i].src = "s2" THEN <<"X1", 5002>> ELSE <<"A1", 5001>>)
+\* a datagram an operation took is nowhere else: not live any more, and held by one operation only
+TakenOnce == \A r \in MCSocks : \A j, k \in 1..Len(Ops(r)) :
+                 (Ops(r)[j].tk # None) => /\ Ops(r)[j].tk.id \notin DOMAIN dg
+                                           /\ (k # j /\ Ops(r)[k].tk # None) => Ops(r)[k].tk.id # Ops(r)[j].tk.id
 MCView == <<uvars, sentAt, budget, nextId>>
 =============================================================================
